@@ -621,3 +621,48 @@ contract('bitstream.BitStream.replace@sweep', target='bitstream.BitStream.replac
          props={'C07', 'C03', 'C06'}, kind='public', note="as BitArray.replace; pos reset iff the length changed  (BOUNDED)")(_replace_sweep(True))
 for _q in ('bits.Bits.findall@sweep', 'bits.Bits.split@sweep'):
     _R[_q].inline = True
+
+
+# ---- cut in both bit numberings (C12: the lsb0 chunks are the msb0 chunks of the reversed data, reversed back) -------------
+def _cut_sweep_shapes():
+    out = []
+    for cls, st in SELF_STATES_MEM:
+        for lsb0 in (False, True):
+            def build(S, interp, cls=cls, st=st):
+                return [m_bits(S, interp, 'self', cls, st), S.int('bits'), mk_opt(S, 'start', 'int'), mk_opt(S, 'end', 'int'), mk_opt(S, 'count', 'int')], {}
+
+            def real(vals, cls=cls, st=st):
+                return [r_bits(vals, 'self', cls, st), vals['bits'], vals['start'], vals['end'], vals['count']], {}
+
+            def gen(rng, cls=cls):
+                n = rng.randint(0, 40)
+                v = {'self': [rng.random() < 0.5 for _ in range(n)], 'bits': rng.choice([1, 2, 3, 7, 8, 9, n, n + 1, 0, -1]),
+                     'start': rng.choice([None, 0, rng.randint(-n - 2, n + 2)]), 'end': rng.choice([None, n, rng.randint(-n - 2, n + 2)]),
+                     'count': rng.choice([None, None, 0, 1, 2, 100, -1])}
+                if cls in ('ConstBitStream', 'BitStream'):
+                    v['self.pos'] = rng.randint(0, n)
+                return v
+            out.append(Shape(f'{cls}/{st}/lsb0={lsb0}', build, real, gen=gen, stable=False, bounded_only=True, opts={'lsb0': True} if lsb0 else {},
+                             props={'C07', 'C12'} if lsb0 else {'C07'}))
+    return out
+
+
+def _cut_sweep(C, self, nbits, start=None, end=None, count=None):
+    V = bits(self)
+    s, e = window(C, V, start, end)
+    if count is not None and count < 0:
+        C.throw('ValueError')
+    if nbits <= 0:
+        C.throw('ValueError')
+    out = []
+    p = s
+    while p < e and (count is None or len(out) < count):
+        q = min(p + nbits, e)
+        out.append(_piece(C, self, V, p, q))
+        p = q
+    return ('gen', out)
+
+
+contract('bits.Bits.cut@sweep', target='bits.Bits.cut', shapes=_cut_sweep_shapes(), props={'C07'}, kind='public',
+         note="cut in both bit numberings  (BOUNDED)")(_cut_sweep)
+_R['bits.Bits.cut@sweep'].inline = True
